@@ -553,13 +553,13 @@ theorem foldlM_putAllOpt {α : Type} (step : Graph → α → Except Err Graph) 
     cases hta : tg a with
     | none =>
       rw [hta] at hs
-      have hf : (a :: rest).filterMap tg = rest.filterMap tg := by simp [List.filterMap_cons, hta]
+      have hf : (a :: rest).filterMap tg = rest.filterMap tg := by simp [hta]
       rw [hf] at hg hr ⊢
       simp only [List.foldlM_cons, bind, Except.bind, hs]
       exact ih x (fun a' h' => hp a' (List.mem_cons_of_mem _ h')) hi hg hr
     | some t =>
       rw [hta] at hs
-      have hf : (a :: rest).filterMap tg = t :: rest.filterMap tg := by simp [List.filterMap_cons, hta]
+      have hf : (a :: rest).filterMap tg = t :: rest.filterMap tg := by simp [hta]
       rw [hf] at hg hr ⊢
       have ht := hg t (List.mem_cons_self ..)
       have hrt := (hr t (List.mem_cons_self ..)).1
